@@ -416,6 +416,34 @@ def family_programs(rnd, n):
                "fn r(n, k) { if n == 0 { return f(k); } return r(n - 1, k); }\n"
                f"let d = 0;\nwhile d < 120 {{ r(d, {k}); d = d + 1; }}\nprint(\"after\");")
         out.append((f"errfill:{k}", src, {"stdout": ["true"] * 120 + ["after"], "status": "ok"}))
+    # ---- the operations that are syntax, not natives of the table, over every kind (pair) of operand
+    kinds = sorted(POOL)
+    val = lambda k, j=0: POOL[k][j % len(POOL[k])]
+    unary = ["-X", "!X", "<- X", "X.zz", "X.zz = 1", "X.zz()", "X.zz(1, 2)", "X()", "X(1)", "for q in X { break; }", "X[0]", "X[0] = 1", "X[0] += 1", "X.zz += 1",
+             "launch X()", "raise X", '"${X}"', "X ? 1 : 2", "X && X", "X || X", "class Q : X { }", "chan(X)", "X <- 1", "let q = X; q = nil"]
+    stmts = []
+    for k in kinds:
+        for j, u in enumerate(unary):
+            if k == "chan" and u in ("<- X", "X <- 1"):
+                continue            # these wait for another fiber: a reported deadlock, which is a legitimate end but ends the script
+            body = u.replace("X", val(k, j))
+            if body.startswith("class Q : "):
+                body = "let S = " + body[len("class Q : "):-len(" { }")] + "; class Q : S { }"
+            stmts.append(body if body.startswith("for ") or body.endswith("}") else body + ";")
+    binary = ["+", "-", "*", "/", "<", "<=", ">", ">=", "==", "!="]
+    for a in kinds:
+        for b in kinds:
+            for j, o in enumerate(binary):
+                stmts.append(f"({val(a, j)}) {o} ({val(b, j + 1)});")
+            stmts.append(f"({val(a)})[{val(b)}];")
+            stmts.append(f"({val(a)})[{val(b)}] = {val(b, 1)};")
+    # what the front end refuses is not the runtime's business (C15): keep the statements that compile
+    accepted = vlib.run_batch(vlib.build_harness(), [{"id": f"s{j}", "src": HEADER + "try { " + st + " } catch e { }", "repl": False} for j, st in enumerate(stmts)], subcmd="dump", per_case_timeout=30)
+    stmts = [st for j, st in enumerate(stmts) if accepted[f"s{j}"].get("status") == "ok"]
+    for c0 in range(0, len(stmts), 300):
+        chunk = stmts[c0:c0 + 300]
+        src = HEADER + "".join(f"try {{ {st} }} catch e {{ }}\n" for st in chunk) + 'print("after");'
+        out.append((f"syntaxops:{c0}", src, {"contract": True, "last": "after", "status_in": ["ok"]}))
     # ---- chan(n) is syntax, not a native of the table: every kind of capacity
     for i, cap in enumerate(["0", "1", "-1", "0.5", "2", "255", "1e18", "1e300", "(0/0)", "(1/0)", "(-1/0)", '"a"', "nil", "true", "[1]", "Obj0()", "9007199254740993"]):
         out.append((f"chancap:{i}", HEADER + f'try {{ let c = chan({cap}); c <- 1; print(<- c); }} catch e {{ print("caught"); }}\nprint("after");',
